@@ -544,32 +544,45 @@ cleanup:
 
 static int setService(TcpAsyncCtx *tcpCtx, const char *host, unsigned port, const char *user, const char *pass) {
 	int res = KSI_UNKNOWN_ERROR;
+	char *tmp_host = NULL;
+	char *tmp_user = NULL;
+	char *tmp_pass = NULL;
 
 	if (tcpCtx == NULL || host == NULL || user == NULL || pass == NULL) {
 		res = KSI_INVALID_ARGUMENT;
 		goto cleanup;
 	}
 
-	if (tcpCtx->host) KSI_free(tcpCtx->host);
-	tcpCtx->host = NULL;
-	res = KSI_strdup(host, &tcpCtx->host);
+	/* Make all the copies first, so that a failure leaves the current endpoint untouched. */
+	res = KSI_strdup(host, &tmp_host);
 	if (res != KSI_OK) goto cleanup;
+
+	res = KSI_strdup(user, &tmp_user);
+	if (res != KSI_OK) goto cleanup;
+
+	res = KSI_strdup(pass, &tmp_pass);
+	if (res != KSI_OK) goto cleanup;
+
+	KSI_free(tcpCtx->host);
+	tcpCtx->host = tmp_host;
+	tmp_host = NULL;
 
 	tcpCtx->port = port;
 
-	if (tcpCtx->ksi_user) KSI_free(tcpCtx->ksi_user);
-	tcpCtx->ksi_user = NULL;
-	res = KSI_strdup(user, &tcpCtx->ksi_user);
-	if (res != KSI_OK) goto cleanup;
+	KSI_free(tcpCtx->ksi_user);
+	tcpCtx->ksi_user = tmp_user;
+	tmp_user = NULL;
 
-	if (tcpCtx->ksi_pass) KSI_free(tcpCtx->ksi_pass);
-	tcpCtx->ksi_pass = NULL;
-	res = KSI_strdup(pass, &tcpCtx->ksi_pass);
-	if (res != KSI_OK) goto cleanup;
+	KSI_free(tcpCtx->ksi_pass);
+	tcpCtx->ksi_pass = tmp_pass;
+	tmp_pass = NULL;
 
 	KSI_LOG_debug(tcpCtx->ctx, "[%p] Async TCP client host: %s:%d", tcpCtx, tcpCtx->host, tcpCtx->port);
 	res = KSI_OK;
 cleanup:
+	KSI_free(tmp_host);
+	KSI_free(tmp_user);
+	KSI_free(tmp_pass);
 	return res;
 }
 
